@@ -7,6 +7,7 @@ From Coq Require Import List NArith ZArith Bool.
 From Stevia Require Import Base.Res Avl.Impl Avl.Tree Avl.Spec Avl.Inv Avl.LinkInsert Avl.LinkSteps
   Avl.Master Avl.Clauses Avl.Capacity
   Arr.Impl Arr.Spec Arr.Search Arr.Refine Arr.ArrProps.
+From Stevia Require Import Avl.FinalMaster.
 Import ListNotations.
 Open Scope N_scope.
 
@@ -107,12 +108,28 @@ Theorem C08_avl_history : forall bits, remove_spec_statement bits ->
 Proof. exact run_refines. Qed.
 Print Assumptions C08_avl_history.
 
+(* the headline with growth, the premise discharged (Avl/FinalMaster.v: the
+   link for [remove] is the theorem [LinkRemove.remove_spec]) *)
+Theorem C08_avl_history_final : forall bits capacity ops,
+  okbits bits -> capacity < 2 ^ bits -> (bits <> 8 -> capacity + 1 < 2 ^ bits) ->
+  growth_ok bits (spec_init capacity) ops ->
+  exists outs, run_c bits (init_c capacity capacity) ops = map Ok outs /\
+               map out_abs outs = run_s (spec_init capacity) ops.
+Proof. exact run_refines_final. Qed.
+Print Assumptions C08_avl_history_final.
+
 Theorem C08_avl_history_from : forall bits, remove_spec_statement bits ->
   forall ops s t fr term,
   Inv bits s t fr term -> okbits bits -> sizecond bits s -> growth_okw bits (abs_of s t) ops ->
   exists outs, run_c bits s ops = map Ok outs /\ map out_abs outs = run_s (abs_of s t) ops.
 Proof. exact run_refines_from. Qed.
 Print Assumptions C08_avl_history_from.
+
+Theorem C08_avl_history_from_final : forall bits ops s t fr term,
+  Inv bits s t fr term -> okbits bits -> sizecond bits s -> growth_okw bits (abs_of s t) ops ->
+  exists outs, run_c bits s ops = map Ok outs /\ map out_abs outs = run_s (abs_of s t) ops.
+Proof. exact run_refines_from_final. Qed.
+Print Assumptions C08_avl_history_from_final.
 
 (* the read-only view of the extended buffer: the old capacity, the same
    contents *)
